@@ -11,10 +11,19 @@ import props  # noqa: E402
 ALL = ["C%02d" % i for i in range(1, 21)]
 
 
+def claimed():
+    """Only checks the lead has accepted are registered (vf/claimed.txt, one id per line)."""
+    try:
+        return set(l.strip() for l in open(os.path.join(VERIF, "vf", "claimed.txt")) if l.strip() and not l.startswith("#"))
+    except OSError:
+        return set()
+
+
 def main():
     checks = []
+    ok = claimed()
     for p in ALL:
-        if p not in props.PROPS:
+        if p not in props.PROPS or p not in ok:
             continue
         s = props.PROPS[p]
         if s.get("unclaimed"):
@@ -33,7 +42,7 @@ def main():
         })
     na = []
     for p in ALL:
-        if p not in props.PROPS or props.PROPS[p].get("unclaimed"):
+        if p not in props.PROPS or props.PROPS[p].get("unclaimed") or p not in ok:
             na.append({"property_id": p, "reason": props.NOT_APPLICABLE.get(
                 p, "check not built yet in this round; the design (DESIGN.md section 5) applies runtime monitoring to it")})
     m = {
